@@ -558,6 +558,9 @@ impl Sim {
             apply_op(&self.nodes[i].durable, &op);
             self.nodes[i].durable_ops.push(op);
         }
+        if self.mon.is_some() {
+            self.with_mon(|m, s| m.on_fsync(s, i));
+        }
         let n = &self.nodes[i];
         if let Some((t, v, _)) = rv.hs {
             self.pt.fsync(n.id, t, v);
